@@ -1,5 +1,5 @@
 (* C14 -- the random stream continues across calls exactly when the work done once per call is neutral on it. *)
-From CV Require Import Base.Tac Base.Cmp Model.C14_Chain Model.C14_Stream.
+From CV Require Import Base.Tac Base.Cmp Model.C14_Chain Model.C14_Stream Proofs.C14_Chain.
 
 Section StreamProofs.
 Variables Cfg St Pt V K : Type.
@@ -122,6 +122,66 @@ End Drawing.
 End StreamProofs.
 
 (* ------------------------------------------------------------------------------------------ *)
+(* refinement: what the stream machine records is what Sampler.sample (Model/C14_Chain.v) records on the random inputs
+   the transitions read from the stream *)
+Section RefinesProofs.
+Variables Cfg St Rnd Pt Acc V : Type.
+Variable step0 : Cfg -> St -> Rnd -> St * Acc.
+Variable rd : Cfg -> St -> stream V -> Rnd * nat.
+Variable pre : Cfg -> St -> stream V -> St * nat.
+Variable point : St -> Pt.
+Notation sstep := (sstep Cfg St Rnd Acc V step0 rd).
+Notation inputs := (inputs Cfg St Rnd Acc V step0 rd).
+Notation states0 := (states Cfg St Rnd Acc step0).
+Notation transitions := (transitions Cfg St Pt V unit sstep point).
+Notation call := (call Cfg St Pt V unit sstep pre point).
+Notation calls := (calls Cfg St Pt V unit sstep pre point).
+
+Lemma units_S n : units (S n) = tt :: units n.
+Proof. reflexivity. Qed.
+
+Lemma units_app n m : units n ++ units m = units (n + m).
+Proof. unfold units. symmetry. apply repeat_app. Qed.
+
+Lemma transitions_refine c str n : forall s pos l,
+  c_rec (transitions c str (mkCore s pos l) (units n)) = l ++ map point (states0 c s (inputs c str s pos n)) /\
+  c_st (transitions c str (mkCore s pos l) (units n)) = last (states0 c s (inputs c str s pos n)) s.
+Proof.
+  induction n as [|n IH]; intros s pos l.
+  - cbn. rewrite app_nil_r. split; reflexivity.
+  - rewrite units_S. cbn [C14_Stream.transitions fold_left].
+    change (fold_left (one Cfg St Pt V unit sstep point c str) (units n)) with (fun r0 => transitions c str r0 (units n)). cbn beta.
+    unfold C14_Stream.one. cbn [c_st c_pos c_rec C14_Stream.sstep fst snd].
+    destruct (IH (fst (step0 c s (fst (rd c s (shift V str pos))))) (pos + snd (rd c s (shift V str pos)))%nat
+                 (l ++ [point (fst (step0 c s (fst (rd c s (shift V str pos)))))])) as [H1 H2].
+    cbn [C14_Stream.inputs C14_Chain.states map]. split.
+    + rewrite H1. rewrite <- app_assoc. reflexivity.
+    + rewrite H2. set (s1 := fst (step0 c s (fst (rd c s (shift V str pos))))).
+      destruct (states0 c s1 (inputs c str s1 (pos + snd (rd c s (shift V str pos))) n)) as [|x t]; [reflexivity|].
+      change (last (s1 :: x :: t) s) with (last (x :: t) s). apply last_indep. discriminate.
+Qed.
+
+(* N transitions then M transitions record what Sampler.sample records, from the same sampler object, on the N + M random
+   inputs ONE call reads from the stream -- provided the per-call work is neutral (hypotheses of stream_calls_one) *)
+Theorem stream_refines_sample (Inv : St -> Prop) :
+  (forall c k s str, Inv s -> Inv (fst (sstep c k s str))) ->
+  (forall c s str, Inv (fst (pre c s str))) ->
+  (forall c s str, Inv s -> pre c s str = (s, 0%nat)) ->
+  forall c str (s : St) pos (n m : nat) (x : @sampler St Pt Acc), Inv s -> st x = s ->
+    c_rec (calls c str (mkCore s pos (smp x)) [units n; units m]) =
+    smp (sample Cfg St Rnd Pt Acc step0 point c x (inputs c str s pos (n + m))).
+Proof.
+  intros H1 H2 H3 c str s pos n m x Hs Hx.
+  rewrite (stream_calls_one Cfg St Pt V unit sstep pre point Inv H1 H2 H3 c str (mkCore s pos (smp x)) (units n) [units m]).
+  cbn [concat]. rewrite app_nil_r, units_app.
+  unfold C14_Stream.call. rewrite (enter_id Cfg St Pt V pre Inv H3 c str (mkCore s pos (smp x)) Hs).
+  destruct (transitions_refine c str (n + m) s pos (smp x)) as [R _]. rewrite R.
+  destruct (sample_spec Cfg St Rnd Pt Acc step0 point c (inputs c str s pos (n + m)) x) as (_ & S2 & _).
+  rewrite S2, Hx. reflexivity.
+Qed.
+End RefinesProofs.
+
+(* ------------------------------------------------------------------------------------------ *)
 (* a concrete machine whose per-call work draws one variate (a validation that samples from the target): the stream is
    the sequence 0, 1, 2, ...; a transition moves to the variate it reads.  sample(2); sample(1) records [1; 2; 4],
    sample(3) records [1; 2; 3]; and sample(0); sample(3) differs from sample(3) *)
@@ -136,17 +196,34 @@ Lemma percall_draw_witness :
   c_rec (w_calls [0; 3]%nat) = [2; 3; 4]%nat /\ c_pos (w_calls [3; 0]%nat) = 5%nat /\ c_pos (w_calls [3]%nat) = 4%nat.
 Proof. repeat split; reflexivity. Qed.
 
-(* the trace instance evaluated by check_draws satisfies the hypotheses of `Neutral` with the trivial invariant *)
-Lemma ts_instance per :
-  (forall c k s str, True -> (fun _ : nat => True) (fst (ts_step per c k s str))) /\
-  (forall c s str, (fun _ : nat => True) (fst (ts_pre 0%nat c s str))) /\
-  (forall c s str, True -> ts_pre 0%nat c s str = (s, 0%nat)).
-Proof. repeat split. Qed.
-
-(* consequently what check_draws expects adds up, for any split, to the consumption of the unsplit run *)
-Lemma ts_calls_sum per sizes :
-  fold_right Nat.add 0%nat (ts_calls per 0%nat sizes) =
-  c_pos (calls unit nat nat unit unit (ts_step per) (ts_pre 0%nat) (fun k => k) tt (fun _ => tt) (mkCore 0%nat 0%nat []) (map units sizes)).
+(* the trace instance evaluated by check_draws / check_draws_sizes satisfies the hypotheses of `Neutral`; the invariant is
+   `initialised` *)
+Lemma ts_instance per init :
+  (forall c k s str, fst s = true -> fst (fst (ts_step per c k s str)) = true) /\
+  (forall c s str, fst (fst (ts_pre init 0%nat c s str)) = true) /\
+  (forall c s str, fst s = true -> ts_pre init 0%nat c s str = (s, 0%nat)).
 Proof.
-  unfold ts_calls. rewrite used_sum. cbn [c_pos]. lia.
+  repeat split.
+  - intros c k s str H. exact H.
+  - intros c [b k] str. unfold ts_pre. cbn [fst snd]. destruct b; reflexivity.
+  - intros c [b k] str H. cbn [fst] in H. subst b. reflexivity.
+Qed.
+
+(* consequently what check_draws expects adds up, for any split, to the distance the stream moved *)
+Lemma ts_calls_sum per init b sizes :
+  nsum (ts_calls per init 0%nat b sizes) =
+  c_pos (calls unit (bool * nat) nat unit unit (ts_step per) (ts_pre init 0%nat) snd tt (fun _ => tt) (mkCore (b, 0%nat) 0%nat []) (map units sizes)).
+Proof.
+  unfold ts_calls, nsum. rewrite used_sum. cbn [c_pos]. lia.
+Qed.
+
+(* and, by stream_calls_one, any split of the trace instance ends where one call ends *)
+Lemma ts_calls_split per init b n rest :
+  calls unit (bool * nat) nat unit unit (ts_step per) (ts_pre init 0%nat) snd tt (fun _ => tt) (mkCore (b, 0%nat) 0%nat []) (map units (n :: rest)) =
+  call unit (bool * nat) nat unit unit (ts_step per) (ts_pre init 0%nat) snd tt (fun _ => tt) (mkCore (b, 0%nat) 0%nat [])
+       (units n ++ concat (map units rest)).
+Proof.
+  destruct (ts_instance per init) as (H1 & H2 & H3). cbn [map].
+  exact (stream_calls_one unit (bool * nat) nat unit unit (ts_step per) (ts_pre init 0%nat) snd (fun s => fst s = true) H1 H2 H3
+           tt (fun _ => tt) (mkCore (b, 0%nat) 0%nat []) (units n) (map units rest)).
 Qed.
